@@ -9,6 +9,7 @@
 import XotModel.Lemmas.Entity
 import XotModel.Lemmas.Output
 import XotModel.Lemmas.Pretty
+import XotModel.Lemmas.PrettyWhere
 
 namespace XotModel.Props
 open XotModel XotModel.Gen
@@ -206,5 +207,63 @@ example :
             ([0, 0, 1], 1, false), ([0, 0, 1], 0, false),
             ([0, 0, 1, 0], 1, false), ([0, 0, 1, 0], 0, false), ([0, 0, 1, 0], 0, false),
             ([0, 0, 1], 1, false), ([0, 0], 1, true), ([0], 0, true)] := by decide
+
+/-! ### The same rules read off the tree -/
+
+/-- Traversal invariant of the `Pretty` stack: the indentation and newline of every pretty token
+    are `prettify` evaluated on the entries of the open elements (those with children) between the
+    start node and the token's node — `pentriesFor`, an explicit function of the tree; each such
+    element contributes `Mixed` if it has a text child or is suppressed, else `Unmixed(xml:space)`. -/
+theorem C14_pretty_where_tree (esc : Escapers) (env : Env) (pr : TokenParams) (sup : List Nat) (t : Tree)
+    (start : Path) (n : Tree) (inScope : List (Nat × Nat)) (hat : t.at? start = some n)
+    (hs : namespacesInScope t start = some inScope)
+    (ks : List (Path × Output × PrettyOutputToken))
+    (h : prettyTokensWith esc env pr sup t start = .ok ks)
+    (k : Path × Output × PrettyOutputToken) (hk : k ∈ ks) :
+    ∃ rel, k.1 = start ++ rel ∧
+      (k.2.2.indentation, k.2.2.newline) =
+        (prettifyAt sup t (pentriesFor sup k.2.1 n rel) k.1 k.2.1).2 := by
+  obtain ⟨rel, h1, _, h2⟩ := pretty_token_entries sup t esc env pr start n inScope hat hs ks h k hk
+  exact ⟨rel, h1, h2⟩
+
+/-- Mixed content and suppress list, on trees, full strength: a token receives indentation or a
+    newline only if no open element strictly above its node has a text child or is named in the
+    suppress list — at any depth. -/
+theorem C14_pretty_where_tree_mixed (esc : Escapers) (env : Env) (pr : TokenParams) (sup : List Nat)
+    (t : Tree) (start : Path) (n : Tree) (inScope : List (Nat × Nat)) (hat : t.at? start = some n)
+    (hs : namespacesInScope t start = some inScope)
+    (ks : List (Path × Output × PrettyOutputToken))
+    (h : prettyTokensWith esc env pr sup t start = .ok ks)
+    (k : Path × Output × PrettyOutputToken) (hk : k ∈ ks)
+    (hw : k.2.2.indentation > 0 ∨ k.2.2.newline = true) :
+    ∃ rel, k.1 = start ++ rel ∧
+      ∀ a name, OpenAbove n rel a → a.value = .element name → a.firstChild?.isSome = true →
+        hasInlineChild a = false ∧ sup.contains name = false := by
+  obtain ⟨rel, node, hp, hnode, hm⟩ :=
+    pretty_where_notMixed sup t esc env pr start n inScope hat hs ks h k hk hw
+  refine ⟨rel, hp, fun a name ha hv hc => ?_⟩
+  have hopen : entryFor sup a ∈ openEntryOf sup a := by simp [openEntryOf, hv, hc]
+  have hin := openAbove_entry sup n rel a ha _ hopen
+  have hne : entryFor sup a ≠ StackEntry.mixed := by
+    intro he
+    have : PStack.inMixed (pentriesAbove sup n rel) = true := by
+      simp only [PStack.inMixed, List.any_eq_true]
+      exact ⟨_, hin, by simp [he]⟩
+    rw [hm] at this
+    cases this
+  have h3 : ¬ (hasInlineChild a = true ∨ sup.contains name = true) :=
+    fun hor => hne ((entryFor_mixed_iff sup a name hv).mpr hor)
+  simp only [not_or, Bool.not_eq_true] at h3
+  exact h3
+
+/-- Non-vacuity: in `<d><a>t<b/></a></d>` (d=5, a=2, b=3) tokens do receive whitespace (`>` of `d`
+    gets a newline, `<a` indentation 1) while nothing inside the mixed element `a` does. -/
+example :
+    (prettyTokens {} {} []
+      (.node .document [.node (.element 5) [.node (.element 2) [.node (.text ['t']) [], .node (.element 3) []]]]) []
+      ).okValue?.map (fun l => l.map (fun k => (k.1, k.2.2.indentation, k.2.2.newline)))
+    = some [([0], 0, false), ([0], 0, true), ([0, 0], 1, false), ([0, 0], 0, false),
+            ([0, 0, 0], 0, false), ([0, 0, 1], 0, false), ([0, 0, 1], 0, false), ([0, 0, 1], 0, false),
+            ([0, 0], 0, true), ([0], 0, true)] := by decide
 
 end XotModel.Props
